@@ -1,12 +1,14 @@
 package c12
 
 import (
+	"bytes"
 	"context"
 	"fmt"
 	"math/rand"
 	"sort"
 	"strings"
 
+	protoMetricsV1 "github.com/lindb/common/proto/gen/v1/linmetrics"
 	"github.com/lindb/roaring"
 
 	"github.com/lindb/lindb/aggregation/function"
@@ -17,6 +19,7 @@ import (
 	"github.com/lindb/lindb/query/operator"
 	"github.com/lindb/lindb/query/tracker"
 	"github.com/lindb/lindb/series/field"
+	"github.com/lindb/lindb/series/metric"
 	"github.com/lindb/lindb/sql/stmt"
 
 	"github.com/lindb/lindb/zzverif/internal/core"
@@ -487,4 +490,146 @@ func fixedWhereDisjointValues(c *core.Ctx) {
 		}
 	}
 	c.NonTrivial()
+}
+
+// ---------------------------------------------------------------- finding (g): NOT over a composite
+
+// writeTagged writes one point of field f1 for a series that carries only the given tags (no
+// Declare: the node creates metric, tag keys and field as the rows arrive).
+func (cl *Cluster) writeTagged(tags [][2]string, slot int, val float64) error {
+	sh, ok := cl.dbs[0].GetShard(models.ShardID(1))
+	if !ok {
+		return fmt.Errorf("no shard 1")
+	}
+	fam, err := sh.GetOrCrateDataFamily(familyStart)
+	if err != nil {
+		return err
+	}
+	m := &protoMetricsV1.Metric{Name: metricName, Namespace: namespace, Timestamp: familyStart + int64(slot)*intervalMs}
+	for _, kv := range tags {
+		m.Tags = append(m.Tags, &protoMetricsV1.KeyValue{Key: kv[0], Value: kv[1]})
+	}
+	m.SimpleFields = append(m.SimpleFields, &protoMetricsV1.SimpleField{Name: "f1", Value: val, Type: protoMetricsV1.SimpleFieldType_DELTA_SUM})
+	ml := protoMetricsV1.MetricList{Metrics: []*protoMetricsV1.Metric{m}}
+	var buf bytes.Buffer
+	conv := metric.NewProtoConverter(models.NewDefaultLimits())
+	if _, err := conv.MarshalProtoMetricListV1To(ml, &buf); err != nil {
+		return err
+	}
+	var br metric.StorageBatchRows
+	br.UnmarshalRows(buf.Bytes())
+	return fam.WriteRows(br.Rows())
+}
+
+// (g) `not (host='zz' or host='yy')` over series a {host=a} and b {dc=x, host=b} (nobody is zz or
+// yy: both series satisfy the condition). seriesFiltering evaluates NOT as "series of the operand's
+// tag key minus the operand's matches", and a composite operand hands up tag key id 0 — the node's
+// FIRST-EVER tag key (ids come from a node-wide sequence starting at 0). Rows arriving a, b: host is
+// key 0, both series match. Rows arriving b, a: dc is key 0, only b matches — series a is gone. The
+// same written data, one node, one shard: the answer depends on which row reached the node first
+// (and so on every placement that changes it). `not host='zz'` (atomic operand) is right both times.
+func witnessNotComposite(c *core.Ctx) {
+	a := [][2]string{{"host", "a"}}
+	b := [][2]string{{"dc", "x"}, {"host", "b"}}
+	eq := func(v string) *CondDef { return &CondDef{Op: "eq", Key: "host", Vals: []string{v}} }
+	composite := &CondDef{Op: "not", L: &CondDef{Op: "par", L: &CondDef{Op: "or", L: eq("zz"), R: eq("yy")}}}
+	atomic := &CondDef{Op: "not", L: eq("zz")}
+	w := &World{TagKeys: []string{"host"}, Fields: []FieldDef{{Name: "f1", Type: field.SumField}}}
+	type obs struct{ keys, matched, answer string }
+	run := func(order [][][2]string, cd *CondDef, ctxBase int) obs {
+		cl, err := NewCluster([]int{1})
+		if err != nil {
+			panic(err)
+		}
+		defer cl.Close()
+		for _, s := range order {
+			// the point of a series does not depend on the arrival order: a -> slot 0, b -> slot 1
+			slot := len(s) - 1
+			if err := cl.writeTagged(s, slot, float64(slot+1)); err != nil {
+				panic(err)
+			}
+		}
+		q := &QueryDef{Selects: []SelectDef{{"f1", function.Unknown}}, GroupBy: []int{0}, NumSlots: 4, Limit: 100, ftypes: ftypesOf(w), Cond: cd}
+		st, err := wireCopy(q.statement(w))
+		if err != nil {
+			panic(err)
+		}
+		db := cl.dbs[0]
+		taskCtx := flow.NewTaskContextWithTimeout(context.Background(), leafTimeout)
+		req := &protoCommonV1.TaskRequest{RequestID: "direct", RequestType: protoCommonV1.RequestType_Data}
+		lctx := querycontext.NewLeafExecuteContext(taskCtx, tracker.NewStageTracker(taskCtx), st, req, cl.fct,
+			&models.Target{Indicator: cl.node.Indicator(), ShardIDs: []models.ShardID{1}}, []string{"root"}, db)
+		sctx := lctx.StorageExecuteCtx
+		if err := operator.NewMetadataLookup(sctx, db).Execute(); err != nil {
+			panic(err)
+		}
+		// the node's tag keys by id = the model's numbering
+		byID := map[int]string{}
+		for _, k := range sctx.Schema.TagKeys {
+			byID[int(k.ID)] = k.Key
+		}
+		var tk []string
+		for id := 0; id < len(byID); id++ {
+			tk = append(tk, byID[id])
+		}
+		if err := operator.NewTagValuesLookup(sctx, db).Execute(); err != nil {
+			panic(err)
+		}
+		shard, _ := db.GetShard(1)
+		shardCtx := flow.NewShardExecuteContext(sctx)
+		if err := operator.NewSeriesFiltering(shardCtx, shard).Execute(); err != nil {
+			panic(err)
+		}
+		got := shardCtx.SeriesIDsAfterFiltering
+		hostMeta, _ := sctx.Schema.TagKeys.Find("host")
+		var matched, ser []string
+		for si, s := range [][][2]string{a, b} {
+			host := s[len(s)-1][1]
+			vids, _ := db.MetaDB().FindTagValueDsByExpr(hostMeta.ID, &stmt.EqualsExpr{Key: "host", Value: host})
+			sid, _ := shard.IndexDB().GetSeriesIDsByTagValueIDs(hostMeta.ID, vids)
+			if sid != nil && sid.GetCardinality() == 1 && got.Contains(sid.ToArray()[0]) {
+				matched = append(matched, fmt.Sprint(si))
+			}
+			vals := []string{fmt.Sprint(si)}
+			for _, k := range tk {
+				v := "~"
+				for _, kv := range s {
+					if kv[0] == k {
+						v = kv[1]
+					}
+				}
+				vals = append(vals, v)
+			}
+			ser = append(ser, strings.Join(vals, "/"))
+		}
+		c.Op(fmt.Sprintf("filter %s tk=%s keys=%s sh=%s", strings.Join(cd.rpn(), "/"), strings.Join(tk, ","), strings.Join(tk, ","), strings.Join(ser, ";")),
+			"ids "+joinOrDashWith(matched, ","))
+		// the same query through the node's real leaf task processor and a real root
+		rs, err := cl.Query(0, 1, w, q, []string{"root"})
+		if err != nil {
+			panic(err)
+		}
+		root, err := NewRoot(w, q, []string{"n0"})
+		if err != nil {
+			panic(err)
+		}
+		root.Ctx.HandleResponse(rs[0], "n0")
+		res := root.Finish()
+		_ = ctxBase
+		return obs{keys: strings.Join(tk, ","), matched: joinOrDashWith(matched, ","), answer: res.answerLine() + " " + res.Err}
+	}
+	ab := run([][][2]string{a, b}, composite, 0)
+	ba := run([][][2]string{b, a}, composite, 10)
+	ab1 := run([][][2]string{a, b}, atomic, 20)
+	ba1 := run([][][2]string{b, a}, atomic, 30)
+	c.NonTrivial()
+	c.Branch("level2")
+	if ab1.matched != ba1.matched || ab1.answer != ba1.answer {
+		c.Fail("not-over-atom-depends-on-arrival-order", fmt.Sprintf("not host='zz': rows a,b -> series %s %q; rows b,a -> series %s %q", ab1.matched, ab1.answer, ba1.matched, ba1.answer))
+	}
+	if ab.matched != ba.matched || ab.answer != ba.answer {
+		c.Fail("not-over-composite-depends-on-tag-key-arrival-order",
+			fmt.Sprintf("not (host='zz' or host='yy') over series a{host=a}, b{dc=x,host=b} on ONE node: rows arriving a,b (tag key ids %s from 0) match series %s, answer %q; rows arriving b,a (tag key ids %s) match series %s, answer %q",
+				ab.keys, ab.matched, ab.answer, ba.keys, ba.matched, ba.answer))
+	}
 }
